@@ -51,6 +51,19 @@ fn deadline_secs() -> u64 {
     std::env::var("VERIF_CASE_DEADLINE").ok().and_then(|s| s.parse::<u64>().ok()).unwrap_or(60)
 }
 const MAX_STUCK: usize = 48;
+/// resident set size of this process in kB (Linux: /proc/self/statm, pages of 4 kB); 0 when it cannot be read
+fn rss_kb() -> u64 {
+    std::fs::read_to_string("/proc/self/statm")
+        .ok()
+        .and_then(|s| s.split_whitespace().nth(1).and_then(|x| x.parse::<u64>().ok()))
+        .map(|pages| pages * 4)
+        .unwrap_or(0)
+}
+/// memory budget of one harness process (`VERIF_MEM_LIMIT_MB`, default 8 GB)
+fn mem_limit_kb() -> u64 {
+    std::env::var("VERIF_MEM_LIMIT_MB").ok().and_then(|s| s.parse::<u64>().ok()).unwrap_or(8 * 1024) * 1024
+}
+
 fn run_pool(lines: Vec<String>, threads: usize, f: fn(&str) -> Vec<String>) -> Vec<Vec<String>> {
     use std::sync::atomic::{AtomicUsize, Ordering};
     use std::sync::{Arc, Mutex};
@@ -112,6 +125,35 @@ fn run_pool(lines: Vec<String>, threads: usize, f: fn(&str) -> Vec<String>) -> V
         }
         if next_print >= n {
             break;
+        }
+        // memory guard: a call that neither returns nor stops allocating would have the whole process killed by the kernel
+        // (and with it every record not yet written).  Past the limit, the calls still running are recorded as not returning,
+        // everything not yet started as skipped, and the process ends.
+        if rss_kb() > mem_limit_kb() {
+            next.store(n, Ordering::SeqCst);
+            let run_now: Vec<usize> = running.lock().unwrap().values().map(|(i, _)| *i).collect();
+            let mut res = results.lock().unwrap();
+            for i in 0..n {
+                if res[i].is_none() {
+                    res[i] = Some(if run_now.contains(&i) {
+                        vec![
+                            format!("CASE {}", lines[i]),
+                            format!("RESULT hang the call did not return before the process held more than {} MB (it keeps allocating)", mem_limit_kb() / 1024),
+                            "END".to_string(),
+                        ]
+                    } else {
+                        vec![format!("CASE {}", lines[i]), "RESULT skipped the process ran out of its memory budget".to_string(), "END".to_string()]
+                    });
+                }
+            }
+            while next_print < n {
+                for l in res[next_print].take().unwrap() {
+                    writeln!(w, "{}", l).unwrap();
+                }
+                next_print += 1;
+            }
+            w.flush().unwrap();
+            std::process::exit(0);
         }
         let hung: Vec<(usize, usize)> = running
             .lock()
@@ -248,7 +290,23 @@ fn mk_generator(m: &HashMap<String, String>) -> Generator {
     // `api=1`: the other spelling of the same configuration (with_min_opcodes / with_max_opcodes, one with_mutator per
     // mutator, with_mutation_rate for rates inside [0, 1], flags set before the range)
     let alt = m.get("api").map(|s| s == "1").unwrap_or(false);
-    let mut g = if alt {
+    // `api=2`: every builder is called twice, first with OTHER values (flags on, another range, another rate): a builder
+    // sets its field - the last call wins, nothing an earlier call set may survive
+    let twice = m.get("api").map(|s| s == "2").unwrap_or(false);
+    let mut g = if twice {
+        Generator::new(v)
+            .with_ext_opcodes(true)
+            .with_buffer_opcodes(true)
+            .with_unsafe_mutations(true)
+            .with_opcode_range(mx + 7, mn + 3)
+            .with_mutation_rate(0.9)
+            .with_min_opcodes(1)
+            .with_max_opcodes(2)
+            .with_opcode_range(mn, mx)
+            .with_unsafe_mutations(m["unsafe"] == "1")
+            .with_ext_opcodes(m["ext"] == "1")
+            .with_buffer_opcodes(m["buf"] == "1")
+    } else if alt {
         Generator::new(v)
             .with_buffer_opcodes(m["buf"] == "1")
             .with_ext_opcodes(m["ext"] == "1")
